@@ -19,6 +19,7 @@ enum Pert {
     RemoveNotImported,
     RewriteOther,
     Reorder,
+    DamageOther,
     ControlChangeKind,
     ControlRemoveImported,
 }
@@ -72,12 +73,13 @@ impl Prop for C13 {
         let not_imported: Vec<usize> = (0..n)
             .filter(|j| *j != obs && !obs_imports.contains(&file_key(&case.project.files[*j])))
             .collect();
-        let pert = match s.weighted(&[3, 3, 6, 2, 2, 2]) {
+        let pert = match s.weighted(&[3, 3, 6, 2, 3, 2, 2]) {
             0 => Pert::AddUnrelated,
             1 => Pert::RemoveNotImported,
             2 => Pert::RewriteOther,
             3 => Pert::Reorder,
-            4 => Pert::ControlChangeKind,
+            4 => Pert::DamageOther,
+            5 => Pert::ControlChangeKind,
             _ => Pert::ControlRemoveImported,
         };
         let files1 = case.files();
@@ -150,6 +152,42 @@ impl Prop for C13 {
                 let d = DocCase::from_model(f, &mut s, &crate::gen::LayoutCfg::default())?;
                 files2[j].1 = d.laid.text;
             }
+            Pert::DamageOther => {
+                // another file gets one malformed member (ending at its terminator): it keeps
+                // its tree, package, name and kind
+                if n < 2 {
+                    st.discard("single-file project");
+                    return Ok(());
+                }
+                let mut j = if !imported_defined.is_empty() && s.chance(3, 4) {
+                    *s.pick(&imported_defined)
+                } else {
+                    s.below(n - 1)
+                };
+                if j >= obs && !imported_defined.contains(&j) {
+                    j = (j + 1).min(n - 1);
+                }
+                if j == obs {
+                    st.discard("single-file project");
+                    return Ok(());
+                }
+                touches_imported = imported_defined.contains(&j);
+                let mut c2 = ProjCase::from_project(case.project.clone(), &mut Src::new(&[]), &lc)?;
+                c2.damage(j);
+                let damaged_text = c2.files()[j].1.clone();
+                // keep the original layout of every other file
+                files2[j].1 = {
+                    let d = &case.docs[j];
+                    let close = d.laid.spans[d.rendered.body_close].0;
+                    let plain = &c2.docs[j];
+                    let pclose = plain.laid.spans[plain.rendered.body_close].0;
+                    let garbage_len = damaged_text.len() - plain.laid.text.len();
+                    let garbage = &damaged_text[pclose..pclose + garbage_len];
+                    let mut t = d.laid.text.clone();
+                    t.insert_str(close, garbage);
+                    t
+                };
+            }
             Pert::Reorder => {
                 let k = files2.len();
                 for i in (1..k).rev() {
@@ -197,7 +235,7 @@ impl Prop for C13 {
             key.push(0);
         }
         if !control {
-            if (touches_imported || pert != Pert::RewriteOther) && !imported_defined.is_empty() {
+            if (touches_imported || !matches!(pert, Pert::RewriteOther | Pert::DamageOther)) && !imported_defined.is_empty() {
                 st.nontrivial(&key);
             }
             if r1.0 != r2.0 {
